@@ -1,8 +1,12 @@
 package props
 
 import (
+	"bytes"
 	"encoding/json"
 	"fmt"
+	"os"
+	"os/exec"
+	"path/filepath"
 	"reflect"
 	"strings"
 	"testing"
@@ -51,6 +55,14 @@ func checkLayoutCase(c LayoutCase) (sig, what string) {
 		}
 		return "acceptance-differs", fmt.Sprintf("original %q is %s, but the re-laid-out source %q is %s", c.Orig, orig, c.Variant, msg)
 	}
+	// the re-laid-out source read from a file (CompileFile, the CLI's -src) is the same program
+	v3, e3, p3 := CompileFileSafe(c.Variant)
+	if p3 != nil {
+		return p3.Sig(), fmt.Sprintf("CompileFile panicked on the re-laid-out source %q: %s", c.Variant, p3.Sig())
+	}
+	if (e3 == nil) != (e2 == nil) {
+		return "acceptance-differs", fmt.Sprintf("the re-laid-out source %q: Compile says %v, CompileFile on a file holding the same bytes says %v", c.Variant, errLine(e2), errLine(e3))
+	}
 	if e1 != nil {
 		return "", ""
 	}
@@ -70,6 +82,16 @@ func checkLayoutCase(c LayoutCase) (sig, what string) {
 		}
 		if !recsEqual(RecsOf(r1.Matches), RecsOf(r2.Matches)) {
 			return "results-differ", fmt.Sprintf("original %q and re-laid-out %q give different results on %q", c.Orig, c.Variant, text)
+		}
+		r3 := RunSafe(v3, text, vmLimitLayout)
+		if r3.OverBudget {
+			continue
+		}
+		if r3.Panic != nil {
+			return r3.Panic.Sig(), fmt.Sprintf("re-laid-out %q compiled from a file panics on %q", c.Variant, text)
+		}
+		if !recsEqual(RecsOf(r1.Matches), RecsOf(r3.Matches)) {
+			return "results-differ", fmt.Sprintf("original %q and re-laid-out %q compiled from a file give different results on %q", c.Orig, c.Variant, text)
 		}
 	}
 	return "", ""
@@ -375,4 +397,158 @@ func clipMsg(s string, n int) string {
 		return s[:n] + fmt.Sprintf("...(%d bytes)", len(s))
 	}
 	return s
+}
+
+func errLine(e error) string {
+	if e == nil {
+		return "accepted"
+	}
+	return "rejected: " + firstLine(e.Error())
+}
+
+// CLILayoutCase: one program in one layout given to the command-line tool.
+type CLILayoutCase struct {
+	Orig    string   `json:"orig"`    // single-blank layout
+	Variant string   `json:"variant"` // the same tokens in another layout
+	Text    string   `json:"text"`
+	Flags   []string `json:"flags"`  // extra flags (e.g. -debug)
+	ViaSrc  bool     `json:"viaSrc"` // the variant is given with -src (a file) instead of -com
+}
+
+// runCLIJSON runs `vore <flags> (-com src | -src file) -files input.txt -json-file out.json`
+// in a scratch directory and returns the exit status and the JSON file's contents.
+func runCLIJSON(cli, src, text string, flags []string, viaSrc bool) (exit int, doc string, msg string) {
+	dir, err := os.MkdirTemp(scratchDir(), "c15cli-")
+	if err != nil {
+		panic(err)
+	}
+	defer os.RemoveAll(dir)
+	os.WriteFile(filepath.Join(dir, "input.txt"), []byte(text), 0o644)
+	args := append([]string{}, flags...)
+	if viaSrc {
+		os.WriteFile(filepath.Join(dir, "program.vore"), []byte(src), 0o644)
+		args = append(args, "-src", "program.vore")
+	} else {
+		args = append(args, "-com", src)
+	}
+	args = append(args, "-files", "input.txt", "-json-file", "out.json", "-replace-mode", "NOTHING")
+	cmd := exec.Command(cli, args...)
+	cmd.Dir = dir
+	var out bytes.Buffer
+	cmd.Stdout, cmd.Stderr = &out, &out
+	done := make(chan error, 1)
+	if err := cmd.Start(); err != nil {
+		panic(err)
+	}
+	go func() { done <- cmd.Wait() }()
+	select {
+	case err = <-done:
+	case <-time.After(60 * time.Second):
+		cmd.Process.Kill()
+		return -1, "", "did not exit within 60 s"
+	}
+	if err != nil {
+		if ee, ok := err.(*exec.ExitError); ok {
+			exit = ee.ExitCode()
+		} else {
+			panic(err)
+		}
+	}
+	b, _ := os.ReadFile(filepath.Join(dir, "out.json"))
+	// file names in the document carry the scratch directory
+	return exit, strings.ReplaceAll(string(b), dir, "<dir>"), clipMsg(out.String(), 300)
+}
+
+func checkCLILayoutCase(c CLILayoutCase) (sig, what string) {
+	cli := os.Getenv("VERIF_CLI")
+	if cli == "" {
+		return "bad-replay-file", "VERIF_CLI is not set"
+	}
+	e1, d1, m1 := runCLIJSON(cli, c.Orig, c.Text, nil, false)
+	e2, d2, m2 := runCLIJSON(cli, c.Variant, c.Text, c.Flags, c.ViaSrc)
+	how := "-com"
+	if c.ViaSrc {
+		how = "-src"
+	}
+	desc := fmt.Sprintf("vore %s %s %q", strings.Join(c.Flags, " "), how, c.Variant)
+	if e1 < 0 || e2 < 0 {
+		return "cli-hang", desc + ": " + m1 + m2
+	}
+	if (e1 == 0) != (e2 == 0) {
+		return "acceptance-differs", fmt.Sprintf("vore -com %q exits %d, %s exits %d (%s)", c.Orig, e1, desc, e2, m2)
+	}
+	if d1 != d2 {
+		return "results-differ", fmt.Sprintf("vore -com %q writes %s, %s writes %s", c.Orig, clipMsg(d1, 300), desc, clipMsg(d2, 300))
+	}
+	return "", ""
+}
+
+func init() {
+	registerReplay("clilayout", func(raw json.RawMessage) (string, string) {
+		var c CLILayoutCase
+		if err := json.Unmarshal(raw, &c); err != nil {
+			return "bad-replay-file", err.Error()
+		}
+		return checkCLILayoutCase(c)
+	})
+}
+
+// TestC15CLI: the same claim through the command-line tool: the program in another
+// layout, given with -com or in a file with -src, with and without -debug, makes the
+// tool write the same JSON document as the single-blank layout given with -com.
+func TestC15CLI(t *testing.T) {
+	seedNote(t)
+	StartWatchdog("C15", 120*time.Second)
+	st := NewStats("C15", "cli", "exhaustive over 8 programs x 7 layouts (newlines, tabs, CR LF, a line comment / an empty line comment / a block comment in every gap, upper-case keywords) x {-com, -src} x {no extra flag, -debug}: the JSON file the tool writes and its exit status equal those of the single-blank layout given with -com; every case non-trivial; distinct by (program, layout, flags)")
+	st.Exhaustive = true
+	defer st.Write()
+	if os.Getenv("VERIF_CLI") == "" {
+		t.Fatalf("HARNESS: VERIF_CLI is not set")
+	}
+	progs := [][]string{
+		{"find", "all", "'alpha'", "'beta'"},
+		{"find", "all", "at", "least", "1", "digit", "=", "n", "':'", "n"},
+		{"replace", "all", "'a'", "with", "'<'", "value", "'>'"},
+		{"set", "w", "to", "pattern", "at", "least", "2", "letter", "find", "top", "2", "w", "' '", "w"},
+		{"find", "all", "line", "start", "(", "'alpha'", "or", "'be'", ")", "=", "h"},
+		{"find", "skip", "1", "take", "2", "in", "'a'", "to", "'c'", ",", "'1'"},
+		{"set", "f", "to", "transform", "return", "match", "+", "matchLength", "end", "replace", "all", "at", "least", "1", "digit", "with", "f"},
+		{"find", "all", "'alpha'", "("}, // rejected in every layout
+	}
+	layouts := []struct{ name, sep string }{
+		{"newline", "\n"}, {"tabs", "\t\t"}, {"crlf", "\r\n"}, {"linecomment", " -- note\n"}, {"emptylinecomment", " --\n"}, {"blockcomment", " --( note )-- "}, {"upper", " "},
+	}
+	text := "alphabeta alpha 12:12 7:8\nbeta the the cat cat 1 abc\nalphabeta\n"
+	for pi, toks := range progs {
+		orig := strings.Join(toks, " ")
+		for _, l := range layouts {
+			vt := toks
+			if l.name == "upper" {
+				vt = nil
+				for _, tk := range toks {
+					if keywords[tk] {
+						tk = strings.ToUpper(tk)
+					}
+					vt = append(vt, tk)
+				}
+			}
+			variant := strings.Join(vt, l.sep)
+			for _, viaSrc := range []bool{false, true} {
+				for _, flags := range [][]string{nil, {"-debug"}} {
+					c := CLILayoutCase{Orig: orig, Variant: variant, Text: text, Flags: flags, ViaSrc: viaSrc}
+					st.Eval()
+					sig, what := checkCLILayoutCase(c)
+					if sig == "bad-replay-file" {
+						t.Fatalf("HARNESS: %s", what)
+					}
+					if sig != "" {
+						Fail(t, Failure{Property: "C15", Kind: "clilayout", What: what, Case: c, Sig: sig})
+					}
+					st.NonTrivial(fmt.Sprint(pi, l.name, viaSrc, flags), func() any {
+						return map[string]any{"program": orig, "layout": l.name, "via_src": viaSrc, "flags": flags}
+					})
+				}
+			}
+		}
+	}
 }
